@@ -95,6 +95,14 @@ def lemma(prop, params=None, family=None, name=None, **cfg):
     return deco
 
 
+def rely_on(prop, fn):
+    """Make a lemma proved for one property an obligation of another property that relies on it (a callee
+    contract used as a stub there): a change that breaks the lemma then fails the relying property too."""
+    src = [l for l in LEMMAS if l.fn is fn][0]
+    LEMMAS.append(Lemma(fn, prop, src.params, src.family, src.name, src.cfg))
+    return fn
+
+
 # ----------------------------------------------------------------------------- parameter specs
 
 
